@@ -151,6 +151,8 @@ class C06Monitor(Monitor):
                     x.violate("C06/reactivated", f"{type(d).__name__} {i} active again after it had stopped")
                 if d.n_evaluations != nev or len(d.history) != ngen:
                     x.violate("C06/inactive-deme-changed", f"stopped {type(d).__name__} {i} evaluated / recorded a generation")
+        elif kind == "cma_tell_after_stop":
+            x.violate("C06/engine-driven-after-it-terminated-itself:CMADeme", f"CMA-ES was told / asked for another generation although it already reported stop {info['stop']}")
         elif kind == "lsc":
             self.lsc_seen.add(info["deme"].id)
             if info["verdict"]:
@@ -607,13 +609,16 @@ class C04Monitor(Monitor):
         self.deme_seq = collections.defaultdict(list)
 
     def on(self, kind, tree, info):
-        if kind != "boundary":
+        # an 'unattended' world is a plain tree.run(): nobody reads any reporting accessor before the run is over
+        if kind != ("end" if self.x.desc.get("unattended") else "boundary"):
             return
         x, w = self.x, self.x.w
         mx = w.maximize
         btr = better(mx)
         allinds = []
         has_loc = False
+        if kind == "end":
+            x.flag("unattended run judged at its end")
         for l, d in tree.all_demes:
             inds = d.all_individuals
             allinds.extend(inds)
